@@ -49,6 +49,9 @@ func genS(t *rapid.T, depth int, pairs bool) *Node {
 	switch n.Op {
 	case "slice":
 		n.Xs = rapid.SliceOfN(rapid.IntRange(0, 20), 0, 6).Draw(t, "xs")
+		if rapid.IntRange(0, 2).Draw(t, "window") == 0 {
+			n.Spare = rapid.IntRange(1, 8).Draw(t, "spare")
+		}
 	case "from":
 		n.Xs = []int{rapid.IntRange(0, 20).Draw(t, "x")}
 	case "nil":
@@ -192,7 +195,7 @@ func Run(sc Scenario) (msg string) {
 	}
 	for _, src := range b.sources {
 		if !reflect.DeepEqual(src[0], src[1]) {
-			return fmt.Sprintf("a source slice was modified: now %v, was %v", src[0], src[1])
+			return fmt.Sprintf("a source slice (or the buffer capacity behind it) was modified: now %v, was %v", src[0], src[1])
 		}
 	}
 	return ""
@@ -324,7 +327,7 @@ func enumP(depth int, leavesS, leavesP []*Node) []*Node {
 	return out
 }
 
-var leavesS = []*Node{{Op: "nil"}, {Op: "slice", Xs: []int{}}, {Op: "slice", Xs: []int{2}}, {Op: "slice", Xs: []int{1, 2, 4}}, {Op: "from", Xs: []int{3}}}
+var leavesS = []*Node{{Op: "nil"}, {Op: "slice", Xs: []int{}}, {Op: "slice", Xs: []int{2}, Spare: 4}, {Op: "slice", Xs: []int{1, 2, 4}}, {Op: "from", Xs: []int{3}}}
 var leavesP = []*Node{{Op: "pnil"}, {Op: "pfrom", Xs: []int{1001, 2}}, {Op: "pfrom", Xs: []int{1004, 1}}}
 
 func TestC14Enum(t *testing.T) {
